@@ -380,6 +380,28 @@ Proof.
   exists 2, [7; 7; 8], witness_cross. split; [lia|]. destruct witness_cross_ok as [A _]. exact A.
 Qed.
 
+(* second window (F14): the convoy polls the channel empty, two producers then fill the channel (capacity 1)
+   and spill into the overflow list, and the convoy pops the overflow list: task 2 overtakes task 1 *)
+Definition witness_overtake : list label :=
+  [P 0; P 0; P 0; P 0; P 0; P 0; C 0; P 0; C 0; C 0;
+   P 1; P 1; P 1; P 1; P 2; P 2; P 2; P 2;
+   C 0].
+
+Lemma witness_overtake_ok :
+  let s := run 1 [1; 1; 1] witness_overtake in
+  spec_safe (st_log s) = false /\ started_tasks (st_log s) = [0; 2] /\ accepted_tasks (st_log s) = [0; 1; 2]
+  /\ forallb (fun Q => negb (q_refs Q <? 0)%Z) (st_qs s) = true.
+Proof. vm_compute. repeat split. Qed.
+
+Lemma C13_overflow_overtake_refuted_proof :
+  exists cap keys sched, 0 < cap /\
+    let s := run cap keys sched in
+    spec_safe (st_log s) = false /\ forallb (fun Q => negb (q_refs Q <? 0)%Z) (st_qs s) = true.
+Proof.
+  exists 1, [1; 1; 1], witness_overtake. split; [lia|].
+  destruct witness_overtake_ok as (A & _ & _ & B). split; assumption.
+Qed.
+
 Lemma C13_full_is_false : ~ exactly_once_in_order_full.
 Proof.
   intros H. destruct C13_cross_flow_refuted_proof as (cap & keys & sched & Hc & Hf).
